@@ -83,7 +83,7 @@ def run_shard(ctx):
     def test(case):
         check_case(ctx, case)
 
-    runner.drive(ctx, test, ctx.n(1600, 40000))
+    runner.drive(ctx, test, ctx.n(6400, 80000))
 
 
 def replay(ctx, case):
